@@ -24,12 +24,13 @@ type RouteSpec struct {
 	Scope   int64 // 0 unset
 	ExtName string
 	Label   string
-	Late    bool // registered on the live mux by a task, after Run has started (C03)
+	Late    int // 1, 2: registered on the live mux by task 1 or 2, after Run has started (C03)
 }
 
 type Script struct {
 	Stall      int // 0 none, 1 released by the scheduler at will, 2 only in the drain phase
 	Panic      bool
+	InWrite    bool // with Panic: the panic is raised inside ResponseWriter.Write (a response with a nil control)
 	Resps      []*RespSpec
 	ReuseCtrl  bool // keep one paging control object across the responses
 	StartTLS   bool // call Request.StartTLS after the first response
@@ -109,7 +110,8 @@ type Client struct {
 	hsErr    string
 	srvTLS   string // result of Request.StartTLS as seen by the handler ("" ok)
 	srvTLSOK bool
-	plainIn  int // bytes received before the TLS handshake (StartTLS flavour)
+	srvAbort bool // the server closed the socket abortively (RST) with data still on its way
+	plainIn  int  // bytes received before the TLS handshake (StartTLS flavour)
 	plainOut int
 	eof      string
 
@@ -152,6 +154,7 @@ type CoreCfg struct {
 	Addr           string
 	Malformed      bool // Addr is malformed: Run must fail
 	BusyPort       bool // the port is already bound when Run starts
+	SecondServer   bool // another gldap.Server is started in the same process, on another port, during the run (C09: IDs are per server)
 	BusyReuse      bool // ... by a socket that has SO_REUSEPORT set (as another server process might)
 
 	Routes     []RouteSpec
@@ -192,6 +195,9 @@ type Core struct {
 	quiesceN    int
 	lateStart   int64 // step at which the late routes began to be registered (0: not yet)
 	lateDone    int64 // step at which all of them were registered
+	srv2        *gldap.Server
+	lateTasks   int // how many tasks register them (1 or 2, concurrently)
+	lateDoneN   int
 	jumps       int
 	stopRets    int
 	stopErr     string
@@ -249,6 +255,12 @@ func (c *Core) handler(route int) gldap.HandlerFunc {
 				act, kinds := ActualOf(r)
 				simrt.Emit("h-recheck", connID, id, int64(route), int64(r.ID), "", &Entered{Act: act, Kinds: kinds})
 			}
+		}
+		if sc.Panic && sc.InWrite {
+			// a response gldap cannot encode: Write itself panics
+			x := r.NewSearchDoneResponse()
+			x.SetControls(nil)
+			_ = w.Write(x)
 		}
 		if sc.Panic {
 			// what a handler may panic with: a string, an error, a runtime
@@ -402,8 +414,11 @@ func (c *Core) Setup(s *Sim) {
 	}
 	anyLate := false
 	for i, rt := range cfg.Routes {
-		if rt.Late {
+		if rt.Late != 0 {
 			anyLate = true
+			if rt.Late > c.lateTasks {
+				c.lateTasks = rt.Late
+			}
 			continue
 		}
 		c.register(mux, i)
@@ -430,17 +445,38 @@ func (c *Core) Setup(s *Sim) {
 		c.invokeStop(s)
 	}
 	c.startRun(s)
-	if anyLate {
-		s.W.Go("late-routes", func() {
-			simrt.Park("task", "late-routes", nil)
-			simrt.Emit("late-reg", 0, 0, 0, 0, "start", nil)
-			for i, rt := range cfg.Routes {
-				if rt.Late {
-					c.register(mux, i)
-				}
+	if cfg.SecondServer {
+		// a second, idle server of the same process: whatever it does must
+		// not touch the first one's connections
+		s.W.Go("server2", func() {
+			simrt.Park("task", "server2-start", nil)
+			srv2, err := gldap.NewServer(gldap.WithLogger(newLogger(hclog.Off)))
+			if err != nil {
+				return
 			}
-			simrt.Emit("late-reg", 0, 0, 1, 0, "done", nil)
+			mux2, _ := gldap.NewMux()
+			_ = mux2.DefaultRoute(func(*gldap.ResponseWriter, *gldap.Request) {})
+			_ = srv2.Router(mux2)
+			c.srv2 = srv2
+			simrt.Emit("server2", 0, 0, 0, 0, "run", nil)
+			_ = srv2.Run("127.0.0.1:390")
 		})
+	}
+	if anyLate {
+		// one or two tasks register the late routes, at the same time if two
+		for t := 1; t <= c.lateTasks; t++ {
+			t := t
+			s.W.Go("late-routes"+strconv.Itoa(t), func() {
+				simrt.Park("task", "late-routes", nil)
+				simrt.Emit("late-reg", 0, 0, 0, 0, "start", nil)
+				for i, rt := range cfg.Routes {
+					if rt.Late == t {
+						c.register(mux, i)
+					}
+				}
+				simrt.Emit("late-reg", 0, 0, 1, 0, "done", nil)
+			})
+		}
 	}
 	if cfg.ReadyPoll {
 		s.W.Go("ready", func() {
@@ -884,6 +920,10 @@ func (c *Core) OnEvent(s *Sim, e *simrt.Event) {
 				}
 			}
 		}
+	case "sock-abort":
+		if cl := c.byEP[e.Conn]; cl != nil && e.A == 1 {
+			cl.srvAbort = true
+		}
 	case "c-step":
 		cl := c.Cfg.Clients[e.A]
 		if int(e.B) == cl.pc {
@@ -919,8 +959,10 @@ func (c *Core) OnEvent(s *Sim, e *simrt.Event) {
 		c.checkBoth(s)
 	case "late-reg":
 		if e.A == 0 {
-			c.lateStart = e.Step
-		} else {
+			if c.lateStart == 0 {
+				c.lateStart = e.Step
+			}
+		} else if c.lateDoneN++; c.lateDoneN == c.lateTasks {
 			c.lateDone = e.Step
 			s.Probe("C03-routes-registered-on-live-mux")
 		}
@@ -979,6 +1021,9 @@ func (c *Core) Teardown(s *Sim) {
 	if c.stopCalls == 0 || c.stopRets < c.stopCalls {
 		srv := c.srv
 		s.W.Go("teardown-stop", func() { _ = srv.Stop() })
+	}
+	if srv2 := c.srv2; srv2 != nil {
+		s.W.Go("teardown-stop2", func() { _ = srv2.Stop() })
 	}
 }
 
